@@ -180,6 +180,64 @@ def safe_hash(x):
         return None
 
 
+def _shared_mutable(a, b, path='obj'):
+    """a mutable value (list, dict, parsed object) that a copy and its original have in common, or None"""
+    if isinstance(a, (list, tuple)) and isinstance(b, (list, tuple)) and not hasattr(a, '_fields'):
+        if a is b and isinstance(a, list):
+            return f'the list at {path}'
+        for i, (x, y) in enumerate(zip(a, b)):
+            r = _shared_mutable(x, y, f'{path}[{i}]')
+            if r:
+                return r
+    elif isinstance(a, dict) and isinstance(b, dict):
+        if a is b:
+            return f'the dict at {path}'
+        for k in a:
+            if k in b:
+                r = _shared_mutable(a[k], b[k], f'{path}[{k!r}]')
+                if r:
+                    return r
+    elif hasattr(a, '_fields') and hasattr(a, '_metadata') and hasattr(b, '_fields'):
+        if a is b:
+            return f'the object at {path}'
+        for f in a._fields:
+            r = _shared_mutable(getattr(a, f), getattr(b, f, None), f'{path}.{f}')
+            if r:
+                return r
+    return None
+
+
+def protocol_probes(seed):
+    """clauses of the statement that need a grammar of their own"""
+    out = []
+    n = 0
+    # pickling objects of a named grammar that was compiled again under the same name (the later compilation is the one installed)
+    name = f'c14_again_{seed}'
+    realrun.compile_grammar(f'grammar {name}\nstart = Setting+\nclass Setting {{ key: /[a-z]+/; value: "=" >> /[0-9]+/ }}\nignore / +/\n')
+    m2, _ = realrun.compile_grammar(f'grammar {name}\nstart = Setting+\nclass Setting {{ key: /[a-z]+/; value: "=" >> /[0-9]+/; flags: ("!" | "?")* }}\nignore / +/\n')
+    try:
+        v = m2.parse('depth = 3 ! ? width = 40')
+        n += 1
+        back = pickle.loads(pickle.dumps(v))
+        if back != v or type(back[0]) is not m2.Setting:
+            out.append(('pickle-recompiled', f'pickle: objects of a grammar compiled a second time under its name come back as {back!r}'))
+    except Exception as exc:      # noqa: BLE001
+        out.append(('pickle-recompiled', f'pickle: objects of a grammar compiled a second time under its name: {type(exc).__name__}: {str(exc)[:120]}'))
+    # _asdict: exactly the declared fields, in declaration order - whatever they are called, whatever else the object carries
+    m3, _ = realrun.compile_grammar('start = Decl\nclass Decl { _doc: ("#" >> /[a-z]+/)?; name: /[a-z]+/ << ":"; type_: /[a-z]+/; _default: ("=" >> /[0-9]+/)? }\nignore / +/\n')
+    d = m3.parse('#size n: int = 4')
+    n += 2
+    if list(d._asdict().items()) != [('_doc', 'size'), ('name', 'n'), ('type_', 'int'), ('_default', '4')]:
+        out.append(('asdict-fields', f'_asdict: {d!r}._asdict() gives {d._asdict()!r}'))
+    d.resolved = 'somewhere'
+    if list(d._asdict()) != ['_doc', 'name', 'type_', '_default']:
+        out.append(('asdict-extra', f'_asdict: an attribute attached to the object shows up as a field: {list(d._asdict())}'))
+    r = d._replace(name='m')
+    if (r.name, r._doc, r._default, d.name) != ('m', 'size', '4', 'n'):
+        out.append(('replace-fields', f'_replace: {d!r}._replace(name="m") gives {r!r}'))
+    return out, n
+
+
 def run(tier, seed, lean):
     rng = random.Random(seed)
     mod, _ = realrun.compile_grammar(GRAMMAR)
@@ -281,6 +339,9 @@ def run(tier, seed, lean):
                 c = copy.deepcopy(o)
                 if not (c == o) or c is o or wire_of_value(c) != wire_of_value(o):
                     viol(f'deepcopy|{wires[0]}', f'deepcopy: copy {c!r} of {o!r} is not an equal, independent object with the same metadata')
+                sh = _shared_mutable(c, o)
+                if sh is not None:
+                    viol(f'deepcopy-shared|{wires[0]}', f'deepcopy: the copy of {o!r} shares {sh} with the original')
                 p = pickle.loads(pickle.dumps(o))
                 kept_for_pickle.append(o)
                 if not (p == o) or wire_of_value(p) != wire_of_value(o):
@@ -321,6 +382,10 @@ def run(tier, seed, lean):
     except subprocess.TimeoutExpired:
         broken.append({'key': 'pickle-cross-timeout', 'what': 'the cross-process pickle probe timed out'})
     stats['pickled_across_processes'] = crossed
+    probes, pn = protocol_probes(seed)
+    evals += pn
+    for key, what in probes:
+        viol(key, what)
     # a tree deeper than Python's recursion limit (parsing builds such trees without difficulty): every operation of the
     # property still has to work on it
     deep_a = deep_b = 1
